@@ -35,92 +35,8 @@ def _big(i, n):
     return (block * reps)[:n]
 
 
-def run_one(devs, budgets, sizes=None, mode="server", via="conn", fin=False):
-    box = {}
-
-    def driver(s):
-        k = vnet.kernel()
-        active = mode == "client"
-        settings = secsgem.hsms.HsmsSettings(
-            connect_mode=secsgem.hsms.HsmsConnectMode.ACTIVE if active else secsgem.hsms.HsmsConnectMode.PASSIVE,
-            address="10.0.0.1", port=5000)
-        if via == "proto":
-            proto = secsgem.hsms.HsmsProtocol(settings)
-            conn = proto._connection
-            enable, disable = proto.enable, proto.disable
-        else:
-            proto = None
-            conn = settings.create_connection()
-            enable, disable = conn.enable, conn.disable
-        if active:
-            lst = vnet.peer_listen("10.0.0.1", 5000)
-            enable()
-            s.block(lambda: bool(lst.accept_queue), s.clock + 30, "wait client connect")
-            peer = lst.accept_queue.popleft() if lst.accept_queue else None
-        else:
-            enable()
-            s.block(lambda: ("10.0.0.1", 5000) in k.listeners and k.listeners[("10.0.0.1", 5000)].state == "listening", s.clock + 5, "wait listen")
-            peer = vnet.peer_connect("10.0.0.1", 5000)
-        if peer is None:
-            box["harness"] = "could not connect"
-            return
-        s.block(lambda: conn.connected and getattr(conn, "_thread_running", True), s.clock + 5, "wait connected")
-        s.settle()
-        if via == "proto":
-            # select first (the endpoint only needs to be connected to send raw messages; select makes it realistic)
-            if active:
-                peer.rx.clear()
-        k.send_menu = True
-        k.select_menu = True
-        k.fin_menu = fin
-        results = []
-        base = len(peer.rx)
-        msgs = []
-        for i, n in enumerate(sizes):
-            if via == "proto":
-                body = payload(i, n)
-                hdr = secsgem.hsms.HsmsStreamFunctionHeader(0x100 + i, 9, 1, False, 0)
-                m = secsgem.hsms.HsmsMessage(hdr, body)
-                wire = b"".join(bytes(b.encode()) for b in m.blocks)
-                msgs.append(wire)
-                try:
-                    ok = proto.send_message(m)
-                except Exception as exc:  # noqa: BLE001
-                    if isinstance(exc, vrt.Divergence):
-                        raise
-                    ok = f"raised {exc!r}"
-            else:
-                data = payload(i, n)
-                msgs.append(data)
-                try:
-                    ok = conn.send_data(data)
-                except Exception as exc:  # noqa: BLE001
-                    if isinstance(exc, vrt.Divergence):
-                        raise
-                    ok = f"raised {exc!r}"
-            results.append(ok)
-        k.send_menu = False
-        k.select_menu = False
-        box["results"] = results
-        box["received"] = bytes(peer.rx[base:])
-        box["msgs"] = msgs
-        peer.close()
-        disable()
-
-    sched = vrt.run(driver, devs, budgets, max_steps=300000, max_time=600.0, line_points=False)
-    res = {"trace": sched.trace, "v": []}
-    case = {"sizes": sizes, "mode": mode, "via": via, "fin": fin}
-    if sched.harness_failure or sched.driver_exception or box.get("harness"):
-        res["harness"] = (sched.harness_failure or sched.driver_exception or box.get("harness"))[-1000:]
-        res["obs"] = None
-        return res
-    if "results" not in box:
-        res["v"].append((f"C10|send-did-not-return|{sched.outcome}|{via}", {"case": case, "info": sched.deadlock_info}))
-        res["obs"] = sched.outcome
-        return res
-    results, received, msgs = box["results"], box["received"], box["msgs"]
-    faults = [t[2] for t in sched.trace if t[0] == "env"]
-    res["obs"] = {"results": [r if isinstance(r, bool) else "raised" for r in results], "received": len(received)}
+def _placement(msgs, results, received, via):
+    """None if `received` is msgs in order - complete where the send reported success, a prefix where it reported failure - else a description."""
     # parse received as x1 x2 ...: complete if its send reported success, a (possibly empty) prefix if it reported failure or raised;
     # through HsmsProtocol the endpoint may add control frames of its own after them (Separate.req when it sees the peer's FIN)
     def tail_ok(pos):
@@ -167,6 +83,125 @@ def run_one(devs, budgets, sizes=None, mode="server", via="conn", fin=False):
     for i, ok in enumerate(results):
         if bad is None and not isinstance(ok, bool):
             bad = ("send-raised", i, str(ok)[:80], len(msgs[i]))
+    return bad
+
+
+def run_one(devs, budgets, sizes=None, mode="server", via="conn", fin=False, reconnect=False):
+    box = {}
+
+    def driver(s):
+        k = vnet.kernel()
+        active = mode == "client"
+        settings = secsgem.hsms.HsmsSettings(
+            connect_mode=secsgem.hsms.HsmsConnectMode.ACTIVE if active else secsgem.hsms.HsmsConnectMode.PASSIVE,
+            address="10.0.0.1", port=5000)
+        if via == "proto":
+            proto = secsgem.hsms.HsmsProtocol(settings)
+            conn = proto._connection
+            enable, disable = proto.enable, proto.disable
+        else:
+            proto = None
+            conn = settings.create_connection()
+            enable, disable = conn.enable, conn.disable
+        if active:
+            lst = vnet.peer_listen("10.0.0.1", 5000)
+            enable()
+            s.block(lambda: bool(lst.accept_queue), s.clock + 30, "wait client connect")
+            peer = lst.accept_queue.popleft() if lst.accept_queue else None
+        else:
+            enable()
+            s.block(lambda: ("10.0.0.1", 5000) in k.listeners and k.listeners[("10.0.0.1", 5000)].state == "listening", s.clock + 5, "wait listen")
+            peer = vnet.peer_connect("10.0.0.1", 5000)
+        if peer is None:
+            box["harness"] = "could not connect"
+            return
+        s.block(lambda: conn.connected and getattr(conn, "_thread_running", True), s.clock + 5, "wait connected")
+        s.settle()
+        if via == "proto":
+            # select first (the endpoint only needs to be connected to send raw messages; select makes it realistic)
+            if active:
+                peer.rx.clear()
+        k.send_menu = True
+        k.select_menu = True
+        k.fin_menu = fin
+        results = []
+        base = len(peer.rx)
+        msgs = []
+        for i, n in enumerate(sizes):
+            if reconnect and i == len(sizes) - 1:
+                # the peer drops the connection and comes back: the last message goes over the new connection of the same object
+                k.send_menu = k.select_menu = False
+                box["received_first"] = bytes(peer.rx[base:])
+                peer.close()
+                s.block(lambda: not conn.connected and ("10.0.0.1", 5000) in k.listeners and k.listeners[("10.0.0.1", 5000)].state == "listening",
+                        s.clock + 30, "wait re-listen")
+                peer = vnet.peer_connect("10.0.0.1", 5000)
+                if peer is None:
+                    box["harness"] = "could not reconnect"
+                    return
+                s.block(lambda: conn.connected and getattr(conn, "_thread_running", True), s.clock + 5, "wait connected again")
+                s.settle()
+                base = len(peer.rx)
+                box["second_connection_from"] = i
+                k.send_menu = k.select_menu = True
+            if via == "proto":
+                body = payload(i, n)
+                hdr = secsgem.hsms.HsmsStreamFunctionHeader(0x100 + i, 9, 1, False, 0)
+                m = secsgem.hsms.HsmsMessage(hdr, body)
+                wire = b"".join(bytes(b.encode()) for b in m.blocks)
+                msgs.append(wire)
+                try:
+                    ok = proto.send_message(m)
+                except Exception as exc:  # noqa: BLE001
+                    if isinstance(exc, vrt.Divergence):
+                        raise
+                    ok = f"raised {exc!r}"
+            else:
+                data = payload(i, n)
+                msgs.append(data)
+                try:
+                    ok = conn.send_data(data)
+                except Exception as exc:  # noqa: BLE001
+                    if isinstance(exc, vrt.Divergence):
+                        raise
+                    ok = f"raised {exc!r}"
+            results.append(ok)
+        k.send_menu = False
+        k.select_menu = False
+        box["results"] = results
+        box["received"] = bytes(peer.rx[base:])
+        box["msgs"] = msgs
+        peer.close()
+        disable()
+
+    sched = vrt.run(driver, devs, budgets, max_steps=300000, max_time=600.0, line_points=False)
+    res = {"trace": sched.trace, "v": []}
+    case = {"sizes": sizes, "mode": mode, "via": via, "fin": fin, "reconnect": reconnect}
+    if sched.harness_failure or sched.driver_exception or box.get("harness"):
+        res["harness"] = (sched.harness_failure or sched.driver_exception or box.get("harness"))[-1000:]
+        res["obs"] = None
+        return res
+    if "results" not in box:
+        res["v"].append((f"C10|send-did-not-return|{sched.outcome}|{via}", {"case": case, "info": sched.deadlock_info}))
+        res["obs"] = sched.outcome
+        return res
+    results, received, msgs = box["results"], box["received"], box["msgs"]
+    if reconnect and "second_connection_from" in box:
+        # first connection: all but the last message; second connection: the last message only, nothing of the earlier ones
+        j = box["second_connection_from"]
+        first = _placement(msgs[:j], results[:j], box["received_first"], via)
+        second = _placement(msgs[j:], results[j:], received, via)
+        res["obs"] = {"results": [r if isinstance(r, bool) else "raised" for r in results], "received": [len(box["received_first"]), len(received)]}
+        for label, bad in (("first-connection", first), ("second-connection", second)):
+            if bad is not None:
+                res["v"].append((f"C10|reconnect|{label}|{bad[0]}|{via}", {"case": case, "message": bad[1], "got_len": bad[2], "want_len": bad[3],
+                                                                           "results": [str(r) for r in results]}))
+        if sched.outcome != "done":
+            res["v"].append((f"C10|execution-{sched.outcome}|{via}", {"case": case, "info": sched.deadlock_info}))
+        return res
+    faults = [t[2] for t in sched.trace if t[0] == "env"]
+    res["obs"] = {"results": [r if isinstance(r, bool) else "raised" for r in results], "received": len(received)}
+    bad = _placement(msgs, results, received, via)
     if bad is not None:
         szclass = "big" if max(sizes) >= MIB else "small"
         res["v"].append((f"C10|{bad[0]}|{via}|{szclass}|faults={len([f for f in faults if f])}", {"case": case, "message": bad[1], "got_len": bad[2], "want_len": bad[3],
@@ -219,6 +254,12 @@ def run(ctx):
                       "levels_completed": st["levels_completed"]})
         tot_exec += st["executions"]
         nontrivial += st["executions"] - 1
+    # a failed (or successful) send, then the peer reconnects and the next send goes over the new connection of the same object
+    for cfg in ({"sizes": [17, 5], "mode": "server", "via": "conn", "reconnect": True}, {"sizes": [3, 4], "mode": "server", "via": "proto", "reconnect": True}):
+        st = explore.explore(ctx, run_one, {"env": f, "sched": 0}, f"c10-reconnect-{cfg['via']}-{cfg['sizes']}", opts=cfg, chunk=8)
+        parts.append({"cfg": cfg, "executions": st["executions"], "outcomes": st["distinct_outcomes"], "levels_completed": st["levels_completed"]})
+        tot_exec += st["executions"]
+        nontrivial += st["executions"] - 1
     ctx.setcov("evaluations", tot_exec)
     ctx.setcov("distinct_nontrivial", nontrivial)
     ctx.setcov("rule", "each execution = one assignment of environment answers (<= F deviations from 'everything accepted at once') to the "
@@ -232,7 +273,8 @@ def run(ctx):
 def replay(ctx, detail):
     case = detail["case"]
     devs = {int(k): v for k, v in case.get("devs", {}).items()}
-    r = run_one(devs, case.get("budgets", {}), sizes=case["sizes"], mode=case["mode"], via=case["via"], fin=case.get("fin", False))
+    r = run_one(devs, case.get("budgets", {}), sizes=case["sizes"], mode=case["mode"], via=case["via"], fin=case.get("fin", False),
+                reconnect=case.get("reconnect", False))
     print("replayed:", r.get("obs"))
     ctx.evaluations += 1
     for sig, d in r["v"]:
